@@ -402,7 +402,24 @@ func (l c02) Exec(env *core.Env) *core.Result {
 				got = append(got, string(r.Type))
 			}
 			if len(got) > len(expected) || strings.Join(got, ",") != strings.Join(expected[:len(got)], ",") {
-				res.Violate("C02/unexpected-validation-sequence", key, "validations reported %v, the level and plugin capabilities call for a prefix of %v", got, expected)
+				// the statement names the validations, not their order: a result of a type that is not called for (or
+				// reported twice) is a violation; the same types in another order only mean that the rest of this
+				// model, which follows the implementation's order and its stop at the first enforced failure, does
+				// not apply to this run - counted, and the run is judged no further
+				seen, bad := map[string]bool{}, false
+				for _, g := range got {
+					called := false
+					for _, e := range expected {
+						called = called || e == g
+					}
+					bad = bad || !called || seen[g]
+					seen[g] = true
+				}
+				if bad {
+					res.Violate("C02/unexpected-validation-sequence", key, "validations reported %v, the level and plugin capabilities call for %v", got, expected)
+				} else {
+					res.Probe("validation_order_differs_from_the_model")
+				}
 				continue
 			}
 			// a verification that was accepted went through every validation the level and the plugin's
@@ -413,7 +430,8 @@ func (l c02) Exec(env *core.Env) *core.Result {
 			// (a plugin's identity verdict is written into the authenticity result after the later native validations ran)
 			pluginIdentityVerdict := sp != nil && len(sp.Requests) > 0 && asked["identity"] && w["vIdentity"] == 1
 			if enforcedFailure >= 0 && len(results) != enforcedFailure+1 && !(pluginIdentityVerdict && got[enforcedFailure] == "authenticity") {
-				res.Violate("C02/continued-after-enforced-failure", key, "results %v continue after the enforced failure at position %d", rs, enforcedFailure)
+				// stopping at the first enforced failure is the implementation's economy, not the statement's demand
+				res.Probe("evaluation_continued_after_an_enforced_failure")
 			}
 			// skipped revocation is not performed at all
 			if revSkipped {
